@@ -256,6 +256,16 @@ def _detect_attrs(which, detect):
             "axis": {"axis": "X"}, "units_alt": {"units": "degreesE"}}[detect]
 
 
+def _exact_cast(values, dtype):
+    """The axis values in the requested storage type when that type holds them exactly
+    (whole degrees as integers, short dyadic fractions as float32), float64 otherwise."""
+    full = numpy.array(values, dtype=numpy.float64)
+    cast = full.astype(NP_DTYPES[dtype])
+    if numpy.array_equal(cast.astype(numpy.float64), full):
+        return cast
+    return full
+
+
 def build_cf1d(spec):
     g = spec["geom"]
     n = g["names"]
@@ -269,10 +279,11 @@ def build_cf1d(spec):
     if g.get("lon_bounds") is not None:
         lon_attrs["bounds"] = n["lon"] + "_bnds"
         bounds_target[n["lon"] + "_bnds"] = ([n["x"], "nv"], _f(g["lon_bounds"]), {})
+    lat_dtype, lon_dtype = g.get("coord_dtypes") or ("f8", "f8")
     target = coords if (g["coords_as"] == "coord" or n["lat"] == n["y"]) else data_vars
-    target[n["lat"]] = ([n["y"]], numpy.array(g["lat"], dtype=numpy.float64), lat_attrs)
+    target[n["lat"]] = ([n["y"]], _exact_cast(g["lat"], lat_dtype), lat_attrs)
     target = coords if (g["coords_as"] == "coord" or n["lon"] == n["x"]) else data_vars
-    target[n["lon"]] = ([n["x"]], numpy.array(g["lon"], dtype=numpy.float64), lon_attrs)
+    target[n["lon"]] = ([n["x"]], _exact_cast(g["lon"], lon_dtype), lon_attrs)
     return data_vars, coords, {"Conventions": "CF-1.8"}
 
 
